@@ -943,6 +943,15 @@ impl NameResolution {
                 astptr,
             } => {
                 let mut closure_env = env.enter_scope();
+                let mut seen_params = HashSet::new();
+                for param in params.iter() {
+                    if !seen_params.insert(param.name.0.as_str()) {
+                        self.error(format!(
+                            "Closure parameter {} is bound more than once",
+                            param.name.0
+                        ));
+                    }
+                }
                 let new_params = params
                     .iter()
                     .map(|param| {
@@ -967,6 +976,7 @@ impl NameResolution {
                 astptr,
             } => {
                 let new_value = self.resolve_expr(value, env, ctx, hir_table);
+                self.report_repeated_binders(pat, ctx);
                 let new_pat = self.resolve_pat(pat, env, ctx, hir_table);
                 let new_annotation = annotation.as_ref().map(|t| {
                     self.lower_type_expr(t, &HashSet::new(), ctx.current_package, ctx.imports)
@@ -987,6 +997,7 @@ impl NameResolution {
                     .iter()
                     .map(|arm| {
                         let mut arm_env = env.enter_scope();
+                        self.report_repeated_binders(&arm.pat, ctx);
                         let new_pat = self.resolve_pat(&arm.pat, &mut arm_env, ctx, hir_table);
                         let new_body = self.resolve_expr(&arm.body, &mut arm_env, ctx, hir_table);
                         hir::Arm {
@@ -1137,6 +1148,46 @@ impl NameResolution {
                     .map(|e| self.resolve_expr(e, &mut block_env, ctx, hir_table))
                     .collect();
                 self.alloc_expr_with_ptr(hir_table, *astptr, hir::Expr::EBlock { exprs: new_exprs })
+            }
+        }
+    }
+
+    /// A pattern binds each of its variables once: with `(a, a)` a use of `a` could mean
+    /// either component.
+    fn report_repeated_binders(&mut self, pat: &ast::Pat, ctx: &ResolutionContext) {
+        fn binders<'a>(pat: &'a ast::Pat, ctx: &ResolutionContext, out: &mut Vec<&'a str>) {
+            match pat {
+                ast::Pat::PVar { name, .. } => {
+                    // a bare variant name is a constructor pattern, not a binder
+                    if !ctx
+                        .constructor_index
+                        .has_variant(ctx.current_package, &name.0)
+                    {
+                        out.push(name.0.as_str());
+                    }
+                }
+                ast::Pat::PConstr { args, .. } => {
+                    args.iter().for_each(|arg| binders(arg, ctx, out))
+                }
+                ast::Pat::PStruct { fields, .. } => fields
+                    .iter()
+                    .for_each(|(_, field_pat)| binders(field_pat, ctx, out)),
+                ast::Pat::PTuple { pats, .. } => {
+                    pats.iter().for_each(|item| binders(item, ctx, out))
+                }
+                _ => {}
+            }
+        }
+        let mut names = Vec::new();
+        binders(pat, ctx, &mut names);
+        let mut seen = HashSet::new();
+        let mut reported = HashSet::new();
+        for name in names {
+            if !seen.insert(name) && reported.insert(name) {
+                self.error(format!(
+                    "Variable {} is bound more than once in one pattern",
+                    name
+                ));
             }
         }
     }
